@@ -16,7 +16,7 @@ def main():
     results = {}
     if want and os.path.exists("/verif/neutral/results.json"):
         results = json.load(open("/verif/neutral/results.json"))
-    for patch in sorted(glob.glob("/verif/neutral/[NMF]*/patch*.diff")):
+    for patch in sorted(glob.glob("/verif/neutral/[NMFR]*/patch*.diff")):
         g = patch.split("/")[-2]; name = g + "/" + os.path.basename(patch)
         if want and g not in want: continue
         rc, out = sh("git apply --check %s" % patch)
